@@ -28,7 +28,7 @@ def run_check(tier, seed, replay=None):
     # totality of the decoder specification (model) + hostile decoder histories
     mc = tlc_mc("MC_Decoder.tla", "MC_Decoder_total.cfg", "c04_mc", timeout=900)
     dtrace = os.path.join(BUILD, "c04.decoder.ndjson")
-    dinfo = vh(["drive-decoder", "--random", str(4000 if quick else 80000), "--seed", str(seed + 17), "--out", dtrace])
+    dinfo = vh(["drive-decoder", "--typed-sweep", GRAMMAR, "--random", str(4000 if quick else 80000), "--seed", str(seed + 17), "--out", dtrace])
     dn, dbad, ddt = c11.validate_decoder_trace(rep, dtrace, "c04_decoder", only_panics=True)
     log("decoder: %d events, %d rejected" % (dn, len(dbad)))
     total = dn
@@ -46,6 +46,15 @@ def run_check(tier, seed, replay=None):
             classes[k] = classes.get(k, 0) + v
         with open(trace) as f:
             samples.append(json.loads(f.readline()))
+    # the loader on well-bracketed and ill-bracketed instruction sequences (panics only)
+    from . import lcommon
+    lhist = os.path.join(BUILD, "c04_loader.hist")
+    lmc = tlc_mc("MC_Loader.tla", "MC_Loader_%s.cfg" % tier, "c04_lmc", edges_out=lhist, timeout=2400)
+    for sname, suite, extra in [("lmodel", "classes", ["--histories", lhist]), ("lsweep", "sweep", []), ("lrandom", "random", ["--n", "300" if quick else "5000"])]:
+        trace, info = lcommon.run_suite("c04_" + sname, suite, seed + 5, extra)
+        n, nbad, counted, dt = lcommon.validate(rep, trace, "c04_" + sname, lcommon.CODE_PANIC)
+        log("loader suite %s: %d events, %d rejected, %d panics" % (sname, n, nbad, counted))
+        total += n
     pipe_cov = {}
     try:
         from . import pipe
